@@ -365,6 +365,27 @@ func runC04(c *Check) {
 		}
 	})
 
+	c.Rule("C04.ORDER-C", func() {
+		// a host is evicted from the published list only if acknowledgement was switched off on it: the publication that
+		// follows the disable loop requires that loop to have reported no error
+		n := 0
+		for _, pub := range pubs {
+			if ok, _ := ufa.PrecededBy(pub, isCallTo(p, fnDisableSlvs)); !ok {
+				continue
+			}
+			n++
+			c.Gate(ufa, pub, "publish-after-failed-disable", "the smaller list is published only if switching acknowledgement off succeeded on every host that leaves it (a reachable host whose disable failed keeps acknowledging outside the list)", func(l Lit) bool {
+				a, b, op, ok := Cmp(l)
+				if !ok {
+					return false
+				}
+				isErrs := func(t *Term) bool { return t.Op == "len" && len(t.Args) == 1 && p.IsCall(t.Args[0], fnDisableSlvs) }
+				return (op == "==" && ((isErrs(a) && b.IsConst("0")) || (isErrs(b) && a.IsConst("0")))) || (op == "<=" && isErrs(a) && b.IsConst("0"))
+			})
+		}
+		c.Req(n == 1, un, "-", "publish-after-disable:site", "the semi-sync publication follows the disable loop", fmt.Sprintf("%d", n))
+	})
+
 	c.Rule("C04.BASIS", func() {
 		// the count handed to the master derives from GetRequiredWaitSlaveCount(L), L = the published list
 		var pubVal ssa.Value
